@@ -1,19 +1,27 @@
-use vh::gen::{self, chance, player, term, ParamSpec};
+use vh::gen::{player, term, ParamSpec};
 use vh::solve::{self, Cfg, Outcome, Prepared};
+use cfr::verif::{Config, Sampling};
+
+fn game(c: f64) -> vh::tree::HNode {
+    let y = |v: [f64; 4]| player(1, "y0", (0..4).map(|i| (format!("a{}", i), term(v[i] * c))).collect());
+    player(0, "x0", vec![("a0".into(), y([0.0, 1.0, -1.0, 1.0])), ("a1".into(), term(-1.0 * c)), ("a2".into(), y([1.0, -1.0, 1.0, 0.0]))])
+}
 
 fn main() {
-    // the same chance infoset twice on one path: by the declared weights HH,HT,TH,TT have 1/4 each
-    let leaf = |x: f64| player(0, format!("d{}", x), vec![("l".into(), player(1, "g", vec![("a".into(), term(x)), ("b".into(), term(-x))])), ("r".into(), term(0.1 * x))]);
-    let inner = |a: f64, b: f64| chance(Some("c".into()), vec![(1.0, leaf(a)), (1.0, leaf(b))]);
-    let tree = chance(Some("c".into()), vec![(1.0, inner(1.0, -3.0)), (1.0, inner(-2.0, 0.5))]);
-    let prep = Prepared::new(&tree).unwrap();
-    for m in gen::METHODS {
-        for t in [100u64, 1000, 10000] {
-            let cfg = Cfg { method: m, iters: t, max_reg: 0.0, threads: 1, params: ParamSpec::Dcfr };
-            if let Outcome::Ok(out) = solve::run(&prep, &cfg, None) {
-                let ev = vh::oracle::evaluate(&prep.flat, &out.profile);
-                println!("{} T={} true regret {:.5} bound {:.5}", gen::method_name(m), t, ev.total(), out.total_bound);
+    let cfg = Cfg { method: cfr::SolveMethod::Full, iters: 6, max_reg: 0.0, threads: 1, params: ParamSpec::None };
+    for c in [1.0, 3.0] {
+        let prep = Prepared::new(&game(c)).unwrap();
+        let hook = Some(Config { flags: solve::ALL_LOGS, sampling: Sampling::Production, jitter_seed: 0 });
+        if let Outcome::Ok(out) = solve::run(&prep, &cfg, hook) {
+            println!("c={} bounds {:?}", c, out.bounds);
+            for e in &out.events {
+                if let cfr::verif::Event::State { pass, stage, player, infosets } = e {
+                    for (i, s) in infosets.iter().enumerate() {
+                        println!("  pass {} stage {} P{} info {} R {:?} S {:?} sigma {:?}", pass, stage, player + 1, i, s.cum_regret.iter().map(|x| x / c).collect::<Vec<_>>(), s.cum_strat, s.strat);
+                    }
+                }
             }
+            println!("{:?}", solve::step_check(&prep, &cfg, &out, true).map(|s| s.min_margin));
         }
     }
 }
